@@ -1,16 +1,19 @@
-/* up to 16 rows of 64*blocks bytes each, allocated by the harness (a quantified requires
- * cannot make row pointers valid); out has exactly 32*num_inputs bytes */
+/* up to 16 rows of 64*blocks bytes each, set up by the harness (a quantified requires cannot
+ * make row pointers valid).  As in compress_chunks_parallel / compress_parents_parallel the
+ * rows are consecutive slices of one buffer that has exactly num_inputs*64*blocks bytes;
+ * out has exactly 32*num_inputs bytes */
 #define HARNESS_HASH_MANY(F)                                                             \
   void harness(void) {                                                                   \
     VERIF_HAVOC_GLOBALS();                                                               \
     const uint8_t *rows[16];                                                             \
     size_t num_inputs, blocks;                                                           \
     __CPROVER_assume(num_inputs <= 16 && blocks <= VERIF_MAX_OBJ / 64);                  \
+    __CPROVER_assume(blocks <= VERIF_MAX_OBJ / 64 / 16);                                 \
+    uint8_t *base = malloc(num_inputs * 64 * blocks);                                    \
+    __CPROVER_assume(base != NULL);                                                      \
     for (size_t i = 0; i < 16; i++) {                                                    \
       if (i < num_inputs) {                                                              \
-        uint8_t *r = malloc(64 * blocks);                                                \
-        __CPROVER_assume(r != NULL);                                                     \
-        rows[i] = r;                                                                     \
+        rows[i] = base + i * 64 * blocks;                                                \
       }                                                                                  \
     }                                                                                    \
     uint32_t key[8];                                                                     \
